@@ -6,6 +6,9 @@ CONSTANTS
   AutoOpts <- AutoTwo
   RVs = {"none"}
   UnsubModes = {"handler", "pair"}
+  BulkModes = {}
+  BulkLens = {}
+  WithClear = FALSE
   Forms = {"inst"}
   NoErrs = {FALSE}
   RaiseTypes <- TA
